@@ -26,6 +26,18 @@ def _closure_body(ctx, parent, n):
     return ctx.prog.bodies.get("%s::{closure#%d}" % (parent.id, n))
 
 
+def _vec_base(b, defs, pl):
+    """identity of the vector a place designates: a local, or (local, field path) when the vector is a field of a local struct
+    (`sections.additional_records`), seen through references"""
+    cb = mu.canon_base(b, defs, pl)
+    if cb is not None:
+        return cb
+    loc = mu.resolve_loc(b, defs, pl)
+    if loc is not None and loc[1]:
+        return loc
+    return None
+
+
 def find_lift(ctx, parent):
     """The OPT lift-out of Packet::parse in either of its shapes
          v.iter().position(pred).map(|i| v.remove(i))                      (remove inside a closure)
@@ -63,7 +75,7 @@ def find_lift(ctx, parent):
         else:
             for s1 in st:
                 if s1[2] != "term" and s1[3].get("k") == "ref":
-                    cb0 = mu.canon_base(parent, defs, s1[3]["pl"])
+                    cb0 = _vec_base(parent, defs, s1[3]["pl"])
                     if cb0 is not None:
                         base = cb0
             break
@@ -101,7 +113,7 @@ def find_lift(ctx, parent):
         d = mu.single_def(defs, mu.op_local(mt["args"][1]))
         cap = mu.op_local(d[2]["ops"][0]) if d[2]["ops"] else None
         capd = mu.single_def(defs, cap) if cap is not None else None
-        if capd is None or capd[2].get("k") != "ref" or not capd[2]["mut"] or mu.canon_base(parent, defs, capd[2]["pl"]) != vec:
+        if capd is None or capd[2].get("k") != "ref" or not capd[2]["mut"] or _vec_base(parent, defs, capd[2]["pl"]) != vec:
             return None, "the closure does not capture `&mut` of the vector position() ran over"
         if mu.origin_local(parent, defs, mu.op_local(mt["args"][0])) != pos_dest:
             return None, "Option::map is not applied to the result of position()"
@@ -127,7 +139,7 @@ def find_lift(ctx, parent):
             return None, "removed index is not the Some payload of the position() result"
         rl = mu.op_local(rt["args"][0])
         rd = mu.single_def(defs, rl) if rl is not None else None
-        if rd is None or rd[1] == "term" or rd[2].get("k") != "ref" or not rd[2]["mut"] or mu.canon_base(parent, defs, rd[2]["pl"]) != vec:
+        if rd is None or rd[1] == "term" or rd[2].get("k") != "ref" or not rd[2]["mut"] or _vec_base(parent, defs, rd[2]["pl"]) != vec:
             return None, "remove receiver is not `&mut` of the vector position() ran over"
         info["borrow_block"] = rd[0]
         # Option<removed>: Some { remove result } on this path
@@ -145,7 +157,7 @@ def find_lift(ctx, parent):
         if bl["cleanup"]:
             continue
         for s1 in bl["stmts"]:
-            if s1["s"] == "assign" and s1["rv"]["k"] == "ref" and s1["rv"]["mut"] and mu.canon_base(parent, defs, s1["rv"]["pl"]) == vec:
+            if s1["s"] == "assign" and s1["rv"]["k"] == "ref" and s1["rv"]["mut"] and _vec_base(parent, defs, s1["rv"]["pl"]) == vec:
                 if pos_bi in dom[bi] and bi != pos_bi:
                     after_pos.append(bi)
     if after_pos != [info["borrow_block"]]:
